@@ -286,12 +286,59 @@ fn many_family(rt: &tokio::runtime::Runtime, irrd_port: u16, opts: &Opts, sink: 
     }
 }
 
+/// a load that cannot even be SENT (the request is refused when it is serialised: a policy name
+/// containing a character XML cannot carry): no server-side fault at all, every reply positive.
+/// The run must fail and must not commit (C04); in particular it must not report success while an
+/// evaluated policy was never loaded (C01).
+fn unsendable_family(rt: &tokio::runtime::Runtime, irrd_port: u16, sink: &mut Sink) {
+    for (n, k) in [(1usize, 0usize), (2, 0), (2, 1), (3, 1), (5, 0), (5, 2), (5, 4)] {
+        let stmts: Vec<(String, String)> = (0..n)
+            .map(|i| {
+                let name = if i == k { format!("p{i}&#1;x") } else { format!("p{i}") };
+                (name, format!("{{ 192.0.{i}.0/24^24-28, 2001:db8:{i}::/48 }}"))
+            })
+            .collect();
+        let log = Arc::new(Mutex::new(Log::default()));
+        let script = Script { running: fakejunos::running_with_exprs(&stmts), ephemeral: fakejunos::empty_config(), fault: None };
+        let log2 = log.clone();
+        let connector = agent::verif::connector(move || {
+            let script = script.clone();
+            let log = log2.clone();
+            Box::pin(async move {
+                let (t, peer) = mt::new();
+                tokio::spawn(fakejunos::serve(peer, script, log));
+                Ok(t)
+            })
+        });
+        let res = std::panic::catch_unwind(std::panic::AssertUnwindSafe(|| {
+            rt.block_on(async {
+                tokio::time::timeout(Duration::from_secs(20), agent::verif::run_once(connector, "127.0.0.1", irrd_port, "bgpfu")).await
+            })
+        }));
+        std::thread::sleep(Duration::from_millis(5));
+        let g = log.lock().unwrap();
+        let committed = g.names.iter().any(|x| x == "commit-configuration");
+        let loads = g.loads.len();
+        let case = format!("unsendable;{n};{k}");
+        let verdict = match res {
+            Err(_) => "violation run-panics".to_string(),
+            Ok(Err(_)) => "violation run-hangs".to_string(),
+            Ok(Ok(Ok(()))) => format!("violation success-although-a-load-was-never-sent-{loads}-of-{n}"),
+            Ok(Ok(Err(_))) if committed => "violation commit-although-a-load-was-never-sent".to_string(),
+            Ok(Ok(Err(_))) => "ok".to_string(),
+        };
+        sink.direct(&case, verdict);
+        sink.count("unsendable.runs");
+    }
+}
+
 pub fn main(opts: &Opts) {
     let mut sink = Sink::new();
     if opts.extra.iter().any(|e| e == "many") {
         let irrd = FakeIrrd::start(HashMap::new());
         let rt = tokio::runtime::Builder::new_multi_thread().worker_threads(4).enable_all().build().unwrap();
         many_family(&rt, irrd.port, opts, &mut sink);
+        unsendable_family(&rt, irrd.port, &mut sink);
         sink.write(opts, "agentrun");
         return;
     }
@@ -364,48 +411,8 @@ pub fn main(opts: &Opts) {
             }
         }
     }
-    // a load that cannot even be SENT (the request is refused when it is serialised: a policy name
-    // containing a character XML cannot carry): no server-side fault at all, every reply positive
     if opts.replay.is_none() {
-        for (n, k) in [(1usize, 0usize), (2, 0), (2, 1), (3, 1), (5, 0), (5, 2), (5, 4)] {
-            let stmts: Vec<(String, String)> = (0..n)
-                .map(|i| {
-                    let name = if i == k { format!("p{i}&#1;x") } else { format!("p{i}") };
-                    (name, format!("{{ 192.0.{i}.0/24^24-28, 2001:db8:{i}::/48 }}"))
-                })
-                .collect();
-            let log = Arc::new(Mutex::new(Log::default()));
-            let script = Script { running: fakejunos::running_with_exprs(&stmts), ephemeral: fakejunos::empty_config(), fault: None };
-            let log2 = log.clone();
-            let connector = agent::verif::connector(move || {
-                let script = script.clone();
-                let log = log2.clone();
-                Box::pin(async move {
-                    let (t, peer) = mt::new();
-                    tokio::spawn(fakejunos::serve(peer, script, log));
-                    Ok(t)
-                })
-            });
-            let res = std::panic::catch_unwind(std::panic::AssertUnwindSafe(|| {
-                rt.block_on(async {
-                    tokio::time::timeout(Duration::from_secs(20), agent::verif::run_once(connector, "127.0.0.1", irrd.port, "bgpfu")).await
-                })
-            }));
-            std::thread::sleep(Duration::from_millis(5));
-            let g = log.lock().unwrap();
-            let committed = g.names.iter().any(|x| x == "commit-configuration");
-            let loads = g.loads.len();
-            let case = format!("unsendable;{n};{k}");
-            let verdict = match res {
-                Err(_) => "violation run-panics".to_string(),
-                Ok(Err(_)) => "violation run-hangs".to_string(),
-                Ok(Ok(Ok(()))) => format!("violation success-although-a-load-was-never-sent-{loads}-of-{n}"),
-                Ok(Ok(Err(_))) if committed => "violation commit-although-a-load-was-never-sent".to_string(),
-                Ok(Ok(Err(_))) => "ok".to_string(),
-            };
-            sink.direct(&case, verdict);
-            sink.count("unsendable.runs");
-        }
+        unsendable_family(&rt, irrd.port, &mut sink);
     }
     for (n, fault) in cases {
         let ftok = match &fault {
